@@ -17,7 +17,8 @@ impl<S: Storage> DropExecutor<S> {
     #[try_stream(boxed, ok = DataChunk, error = ExecutorError)]
     pub async fn execute(self) {
         for table in self.tables {
-            if self.catalog.get_table(&table).unwrap().is_view() {
+            // (dropped by another session since binding: the storage reports "table not found")
+            if self.catalog.get_table(&table).is_some_and(|t| t.is_view()) {
                 self.catalog.drop_table(table);
             } else {
                 self.storage.drop_table(table).await?;
